@@ -385,6 +385,8 @@ def sym_strmeth(name, recv, *a):
         if any(isinstance(x, p.STRLIKE) for x in a):
             recv = p.SymStr(list(recv))
             a = tuple(x.conc() if isinstance(x, p.SymEnum) else x for x in a)
+    if recv is _re or recv is RE:
+        return getattr(RE, name)(*a)
     return getattr(recv, name)(*a)
 
 
@@ -476,6 +478,25 @@ class _Re:
     def __getattr__(self, name):
         f = getattr(_re, name)
         if callable(f) and not isinstance(f, type):
+            def g(*a, **k):
+                a = [x._pat if isinstance(x, _Pat) else x for x in a]
+                r = f(*[_c(x) for x in a], **{kk: _c(v) for kk, v in k.items()})
+                if isinstance(r, _re.Pattern):
+                    return _Pat(r)
+                return r
+            return g
+        return f
+
+
+class _Pat:
+    """compiled pattern whose methods accept proxies (arguments are concretised by enumeration)"""
+
+    def __init__(self, pat):
+        self._pat = pat
+
+    def __getattr__(self, name):
+        f = getattr(self._pat, name)
+        if callable(f):
             def g(*a, **k):
                 return f(*[_c(x) for x in a], **{kk: _c(v) for kk, v in k.items()})
             return g
